@@ -186,6 +186,10 @@ def run(ctx):
     ctx.guard(_ecef_to_lla, ctx, py)
     ctx.guard(_olson_standin, ctx, py)
 
+    # frame of the modules under contract (no state kept between calls, arguments left alone): same analysis as C19
+    from props import C19 as _C19
+    ctx.guard(_C19.frame_obligations, ctx, py, "C16", {'earth', 'transform'})
+
 
 # ---------------------------------------------------------------------------------------------
 def _arr(v, a, b, f=lambda x: x):
